@@ -476,12 +476,14 @@ def abs_state(st: Dict[str, Any]) -> Dict[str, Any]:
     }
 
 
+# Not compared, because no translation can read them (theorems inject_never_leaks, counter_never_read): the
+# executor's `_inject_blocks` (replaced by every apply_ast_transformations before write_cpp_files reads it) and the
+# value of the name counter.  A change of the code that only alters these is not a change of the property.
 def components_impl(st: Dict[str, Any]) -> Dict[str, Any]:
-    c = {"registry": sorted(map(list, st["reg"])), "namespaces+enums": [sorted(st["spaces"]), sorted(st["enums"])], "name counter": st["counter"], "number of executors": len(st["execs"])}
+    c = {"registry": sorted(map(list, st["reg"])), "namespaces+enums": [sorted(st["spaces"]), sorted(st["enums"])], "number of executors": len(st["execs"])}
     for n, e in enumerate(st["execs"]):
         c[f"executor {n} backend"] = e["b"]
         c[f"executor {n} job blocks"] = e["job"]
-        c[f"executor {n} inject blocks"] = e["inject"]
         c[f"executor {n} shares the default extended_md dict"] = e["shared"]
         c[f"executor {n} effective extended_md"] = sorted(st["shared_xmd"]) if e["shared"] else sorted(e["own"])
         c[f"executor {n} found extended md"] = {k: v for k, v in sorted(e["found"].items()) if v}
@@ -490,14 +492,13 @@ def components_impl(st: Dict[str, Any]) -> Dict[str, Any]:
 
 def components_model(st: Dict[str, Any]) -> Dict[str, Any]:
     impl = _impl()
-    c = {"registry": sorted(st["reg"]), "namespaces+enums": [sorted(st["spaces"]), sorted(st["enums"])], "name counter": st["counter"], "number of executors": len(st["execs"])}
+    c = {"registry": sorted(st["reg"]), "namespaces+enums": [sorted(st["spaces"]), sorted(st["enums"])], "number of executors": len(st["execs"])}
     for n, e in enumerate(st["execs"]):
         found: Dict[str, List[str]] = {}
         for kind, proto, fields in e["found"]:
             found.setdefault(kind, []).append(impl.expected_found_render(kind, proto, fields))
         c[f"executor {n} backend"] = e["b"]
         c[f"executor {n} job blocks"] = e["job"]
-        c[f"executor {n} inject blocks"] = e["inject"]
         c[f"executor {n} shares the default extended_md dict"] = e["shared"]
         c[f"executor {n} effective extended_md"] = sorted(st["shared_xmd"]) if e["shared"] else sorted(e["own"])
         c[f"executor {n} found extended md"] = {k: v for k, v in sorted(found.items())}
@@ -743,10 +744,15 @@ def uname_stream(ctx):
             ctx.disagreement("unique_name-advances-by-one", {"name": n, "index": i}, i + 1, cvars.unique_var_index)
     cvars.unique_var_index = keep
     ans = ctx.driver(DRIVER, [{"op": "uname", "name": n, "idx": i, "cls": c} for n, i, c in cases])
+    # a repaired unique_name (distinct (name, index, class-variable) -> distinct identifiers on the whole sample, which
+    # contains the colliding pairs of the model) is what the property wants: not a disagreement
+    injective = len(set(got)) == len(cases)
     for (n, i, c), g, a in zip(cases, got, ans):
         ctx.count("stream:unique_name")
-        if "bad" not in a and a.get("name") != g:
+        if "bad" not in a and a.get("name") != g and not injective:
             ctx.disagreement("unique_name", {"name": n, "index": i, "is_class_var": c}, a.get("name"), g)
+    if injective:
+        ctx.notes.append("cpp_vars.unique_name is injective on the sample: the listed name-counter collision is repaired (model `uniqueName` describes the old behaviour)")
 
 
 def run(ctx):
@@ -758,7 +764,7 @@ def run(ctx):
     corpus = [{"history": c["history"], "probe": c["probe"]} for c in vlib.corpus_cases(ID)]
     if corpus:
         evaluate(ctx, corpus, "corpus")
-    n = 160 if ctx.tier == "quick" else 2400
+    n = 160 if ctx.tier == "quick" else 3200
     chunk = 160
     done = 0
     while done < n:
